@@ -1,3 +1,4 @@
+import copy
 import heapq
 
 class DynamicOpticalSystem(object):
@@ -72,5 +73,9 @@ class DynamicOpticalSystem(object):
         '''
         # Callback counter is to avoid comparison of callback functions
         # if the times are equal, as comparison of functions is not allowed.
-        heapq.heappush(self.callbacks, (t, self.callback_counter, callback))
+        #
+        # The time is stored by value: if the caller hands over a mutable object (for
+        # example a NumPy array holding its running time, advanced in place afterwards),
+        # the scheduled time must not move with it and corrupt the heap.
+        heapq.heappush(self.callbacks, (copy.copy(t), self.callback_counter, callback))
         self.callback_counter += 1
